@@ -42,6 +42,8 @@ type numTr struct {
 	usedConsts    map[string]*big.Int
 	baseStore     map[int]string
 	baseImmut     map[int]string
+	pkgDecls      map[string]ast.Expr // package-level const / var initialisers
+	pkgCache      map[string]val
 }
 
 // package-level *big.Int values, read from the running code
@@ -92,6 +94,29 @@ func (t *numTr) pkgValue(pkg, name string, n ast.Node) (val, bool) {
 			return vBig{c}, true
 		}
 	}
+	if ex, ok := t.pkgDecls[pkg+"."+name]; ok {
+		if v, ok := t.pkgCache[pkg+"."+name]; ok {
+			return v, true
+		}
+		// evaluate the initialiser in an empty environment; it must be a plain value
+		var res val
+		st := &state{vars: map[string]val{}, store: map[int]string{}, immut: map[int]string{}, facts: map[string]bool{}}
+		t.eval(ex, st, &frame{pkg: pkg}, func(v val, s2 *state) term {
+			if b, ok := v.(vBig); ok && b.cell >= 0 { // a package-level *big.Int: constant cell
+				c := t.newCell()
+				t.baseStore[c] = s2.store[b.cell]
+				t.baseImmut[c] = "package-level variable " + pkg + "." + name
+				v = vBig{c}
+			}
+			res = v
+			return tLeaf{""}
+		})
+		if res == nil {
+			t.fail(n, "package-level %s.%s has no plain value", pkg, name)
+		}
+		t.pkgCache[pkg+"."+name] = res
+		return res, true
+	}
 	return nil, false
 }
 
@@ -115,12 +140,13 @@ func runNumGo(args []string) error {
 		methods: map[string]*ast.FuncDecl{}, pkgs: map[string]bool{"math": true, "big": true, "bits": true, "common": true,
 			"errors": true, "sema": true, "values": true, "ast": true, "interpreter": true, "fix": true, "fixedpoint": true},
 		translatePkgs: map[string]bool{}, constCells: map[string]int{}, usedConsts: map[string]*big.Int{},
-		baseStore: map[int]string{}, baseImmut: map[int]string{}}
+		baseStore: map[int]string{}, baseImmut: map[int]string{}, pkgDecls: map[string]ast.Expr{}, pkgCache: map[string]val{}}
+	t.pkgs["unsafe"] = true
 	var files []string
 	for _, ty := range numTypes() {
 		files = append(files, filepath.Join("interpreter", "value_"+strings.ToLower(ty)+".go"))
 	}
-	files = append(files, "values/value_int.go", "values/safe_math.go")
+	files = append(files, "values/value_int.go", "values/safe_math.go", "common/metering.go")
 	for _, rel := range files {
 		path := filepath.Join(repo, rel)
 		f, err := parser.ParseFile(t.fset, path, nil, parser.SkipObjectResolution)
@@ -134,6 +160,11 @@ func runNumGo(args []string) error {
 				for _, sp := range x.Specs {
 					if ts, ok := sp.(*ast.TypeSpec); ok {
 						t.types[pkg+"."+ts.Name.Name] = ts
+					}
+					if vs, ok := sp.(*ast.ValueSpec); ok && len(vs.Values) == len(vs.Names) {
+						for i, id := range vs.Names {
+							t.pkgDecls[pkg+"."+id.Name] = vs.Values[i]
+						}
 					}
 				}
 			case *ast.FuncDecl:
@@ -188,6 +219,30 @@ func runNumGo(args []string) error {
 		}
 	}
 
+	// big-int memory metering (common/metering.go): Amount in bytes as a function of the operands
+	out.WriteString("/-! ### big-int memory metering  (common/metering.go): metered amount in bytes -/\n\n")
+	var meterNames []string
+	for _, fn := range meteringFuncs {
+		fd, ok := t.funcs["common."+fn]
+		if !ok {
+			fmt.Fprintf(&out, "-- UNTRANSLATED Metering.%s: function not found\n\n", fn)
+			nFail++
+			failures = append(failures, "Metering."+fn+": function not found")
+			continue
+		}
+		def, err := t.translateMetering(fd)
+		if err != nil {
+			fmt.Fprintf(&out, "-- UNTRANSLATED Metering.%s: %s\n\n", fn, err.Error())
+			nFail++
+			failures = append(failures, "Metering."+fn+": "+err.Error())
+			continue
+		}
+		out.WriteString(def)
+		out.WriteString("\n\n")
+		nOK++
+		meterNames = append(meterNames, fn)
+	}
+
 	// constants
 	var cs strings.Builder
 	cs.WriteString("/- GENERATED by `vtool gen-numgo` from the running code of the checkout under test (package sema).\n   Do not edit. -/\nnamespace Verif.Gen.NumConsts\n\n")
@@ -229,6 +284,14 @@ func runNumGo(args []string) error {
 			sep = ""
 		}
 		fmt.Fprintf(&hd, "  (%q, %s)%s\n", n, n, sep)
+	}
+	hd.WriteString("]\n\ndef meterTable : List (String × (Int → Int → Except NumErr Int)) := [\n")
+	for i, n := range meterNames {
+		sep := ","
+		if i == len(meterNames)-1 {
+			sep = ""
+		}
+		fmt.Fprintf(&hd, "  (%q, Metering.%s)%s\n", n, n, sep)
 	}
 	hd.WriteString("]\n\nend Verif.Gen.NumGo\n")
 	if err := tx.WriteGen("NumGo", hd.String()); err != nil {
@@ -322,9 +385,17 @@ func (t *numTr) translateMethod(leanType, tn string, fd *ast.FuncDecl) (def stri
 				}
 			}
 		}
+		if _, ok := v.(vNil); ok {
+			return tLeaf{".error .nilValue"} // a nil NumberValue is returned
+		}
 		t.fail(fd, "method returns %T, not a numeric value", v)
 		return nil
 	}}
+	if fd.Type.Results != nil {
+		for _, r := range fd.Type.Results.List {
+			fr.results = append(fr.results, t.resolveType("interpreter", r.Type))
+		}
+	}
 	body := t.execBody(fd.Body, st, fr, false)
 	params := "(v : Int)"
 	if binary {
@@ -332,4 +403,68 @@ func (t *numTr) translateMethod(leanType, tn string, fd *ast.FuncDecl) (def stri
 	}
 	pos := t.fset.Position(fd.Pos())
 	return fmt.Sprintf("/-- %s -/\ndef %s.%s %s : Except NumErr Int :=\n%s", shortPath(pos.Filename), leanType, fd.Name.Name, params, render(body, "  ")), nil
+}
+
+var meteringFuncs = []string{"NewPlusBigIntMemoryUsage", "NewMinusBigIntMemoryUsage", "NewMulBigIntMemoryUsage",
+	"NewModBigIntMemoryUsage", "NewDivBigIntMemoryUsage", "NewBitwiseOrBigIntMemoryUsage", "NewBitwiseXorBigIntMemoryUsage",
+	"NewBitwiseAndBigIntMemoryUsage", "NewBitwiseLeftShiftBigIntMemoryUsage", "NewBitwiseRightShiftBigIntMemoryUsage",
+	"NewNegateBigIntMemoryUsage"}
+
+// a metering function of common/metering.go: (a, b *big.Int) -> MemoryUsage; the definition returns
+// the Amount (bytes).  Unary functions get an unused second operand so that all have one shape.
+func (t *numTr) translateMetering(fd *ast.FuncDecl) (def string, err error) {
+	defer func() {
+		if r := recover(); r != nil {
+			if te, ok := r.(trErr); ok {
+				err = fmt.Errorf("%s", te.msg)
+				return
+			}
+			panic(r)
+		}
+	}()
+	t.depth = 0
+	t.translatePkgs["common"] = true
+	defer func() { t.translatePkgs["common"] = false }()
+	// force the package-level values used by these functions before the base store is copied
+	for _, n := range []string{"BigIntWordSize", "bigIntWordSizeAsBig", "invalidLeftShift"} {
+		t.pkgValue("common", n, fd)
+	}
+	st := &state{vars: map[string]val{}, store: map[int]string{}, immut: map[int]string{}, facts: map[string]bool{}}
+	for c, e := range t.baseStore {
+		st.store[c] = e
+	}
+	for c, w := range t.baseImmut {
+		st.immut[c] = w
+	}
+	names := []string{"a", "b"}
+	i := 0
+	for _, f := range fd.Type.Params.List {
+		pt := t.resolveType("common", f.Type)
+		if pt.kind != "big" {
+			t.fail(f, "metering function with a non-*big.Int parameter")
+		}
+		for _, n := range f.Names {
+			if i >= 2 {
+				t.fail(f, "metering function with more than two operands")
+			}
+			var v val
+			v, st = t.symbolic(pt, names[i], st)
+			st = st.setVar(n.Name, v)
+			i++
+		}
+	}
+	fr := &frame{pkg: "common", ret: func(v val, st *state) term {
+		if s, ok := v.(vStruct); ok {
+			if am, ok := s.fields["Amount"].(vInt); ok {
+				return tLeaf{".ok " + am.e}
+			}
+		}
+		t.fail(fd, "metering function returns %T, not a MemoryUsage", v)
+		return nil
+	}}
+	for _, r := range fd.Type.Results.List {
+		fr.results = append(fr.results, t.resolveType("common", r.Type))
+	}
+	body := t.execBody(fd.Body, st, fr, false)
+	return fmt.Sprintf("/-- common/metering.go -/\ndef Metering.%s (a b : Int) : Except NumErr Int :=\n%s", fd.Name.Name, render(body, "  ")), nil
 }
